@@ -167,12 +167,12 @@ DoClean(st) == CleanFix(st)
 
 (* ------------------------------------ model mode ------------------------------------ *)
 InpChoices(s) == IF s = "A" THEN {{}, {"x"}} ELSE {{}, {"x"}, {"oa"}, {"x", "oa"}}
-VARIABLES st, n, l, out
+VARIABLES st, n, l, out, ak, cur, acc
 mvars == <<st, n>>
-MInit == st = Init0 /\ n = 0 /\ l = 0 /\ out = <<>>
+MInit == st = Init0 /\ n = 0 /\ l = 0 /\ out = <<>> /\ ak = 0 /\ cur = 0 /\ acc = <<>>
 MNext ==
   /\ n' = n + 1
-  /\ UNCHANGED <<l, out>>
+  /\ UNCHANGED <<l, out, ak, cur, acc>>
   /\ \/ StartPEnabled(st) /\ st' = DoStartP(st)
      \/ StaticEnabled(st) /\ st' = DoStatic(st)
      \/ \E s \in Steps : \E I \in InpChoices(s) : DefineEnabled(st, s, I) /\ st' = DoDefine(st, s, I)
@@ -182,7 +182,7 @@ MNext ==
      \/ \E s \in Steps : SucceedEnabled(st, s) /\ st' = DoSucceed(st, s)
      \/ \E s \in Steps : FailEnabled(st, s) /\ st' = DoFail(st, s)
      \/ CleanEnabled(st) /\ st' = DoClean(st)
-MSpec == MInit /\ [][MNext]_<<st, n, l, out>>
+MSpec == MInit /\ [][MNext]_<<st, n, l, out, ak, cur, acc>>
 MView == st
 MBound == n <= 14
 
@@ -221,18 +221,21 @@ Apply(s0, a) ==
     [] a.a = "succeed" -> IF SucceedEnabled(s0, a.s) THEN <<TRUE, DoSucceed(s0, a.s)>> ELSE <<FALSE, s0>>
     [] a.a = "fail" -> IF FailEnabled(s0, a.s) THEN <<TRUE, DoFail(s0, a.s)>> ELSE <<FALSE, s0>>
     [] a.a = "clean" -> IF CleanEnabled(s0) THEN <<TRUE, DoClean(s0)>> ELSE <<FALSE, s0>>
-RECURSIVE Run(_, _)
-Run(s0, acts) ==
-  IF acts = <<>> THEN <<>>
-  ELSE LET r == Apply(s0, Head(acts)) IN <<[enabled |-> r[1], p |-> r[2].p, n |-> r[2].n]>> \o Run(r[2], Tail(acts))
-vars == <<l, out, st, n>>
-Init == l = 0 /\ out = <<>> /\ st = 0 /\ n = 0
+\* one TLC step per action (linear in the length of the sequences)
+vars == <<l, out, st, n, ak, cur, acc>>
+Init == l = 1 /\ out = <<>> /\ st = 0 /\ n = 0 /\ ak = 0 /\ cur = Init0 /\ acc = <<>>
 Next ==
-  /\ l < NL
-  /\ l' = l + 1
+  /\ l <= NL
   /\ UNCHANGED <<st, n>>
-  /\ out' = Append(out, [id |-> Lines[l + 1].id, states |-> Run(Init0, Lines[l + 1].acts)])
-  /\ (l' = NL) => JsonSerialize(IOEnv.VERDICT_FILE, [vectors |-> out', n |-> NL])
+  /\ IF ak < Len(Lines[l].acts)
+     THEN LET r == Apply(cur, Lines[l].acts[ak + 1]) IN
+          /\ ak' = ak + 1
+          /\ cur' = r[2]
+          /\ acc' = Append(acc, [enabled |-> r[1], p |-> r[2].p, n |-> r[2].n])
+          /\ UNCHANGED <<l, out>>
+     ELSE /\ out' = Append(out, [id |-> Lines[l].id, states |-> acc])
+          /\ l' = l + 1 /\ ak' = 0 /\ cur' = Init0 /\ acc' = <<>>
+          /\ (l' = NL + 1) => JsonSerialize(IOEnv.VERDICT_FILE, [vectors |-> out', n |-> NL])
 Spec == Init /\ [][Next]_vars
-Consumed == TLCGet("stats").diameter - 1 = NL
+Consumed == TLCGet("stats").diameter >= NL
 =============================================================================
